@@ -46,7 +46,8 @@ export const STD_MODULES = {
   },
   'probe:ns': {
     Comp: { k: 'comp', id: 'ns.Comp' }, div: { k: 'comp', id: 'ns.div' }, span: { k: 'comp', id: 'ns.span' }, 'x': { k: 'comp', id: 'ns.x' },
-    inner: { k: 'obj', v: { Deep: { k: 'comp', id: 'ns.inner.Deep' } } },
+    input: { k: 'comp', id: 'ns.input' }, select: { k: 'comp', id: 'ns.select' }, button: { k: 'comp', id: 'ns.button' },
+    inner: { k: 'obj', v: { Deep: { k: 'comp', id: 'ns.inner.Deep' }, textarea: { k: 'comp', id: 'ns.inner.textarea' } } },
   },
 };
 
